@@ -1,12 +1,33 @@
 import Adb.Model.Basic
 import Adb.Model.Removeparam
 import Driver.Parse
+import Adb.Model.History
+import Adb.Model.RegexCache
 /-
   One-line-in / one-line-out driver.  Every answer has the form  `M=<model> S=<spec> D=<0|1>`:
   the output of the model that mirrors the code, the output of the reference semantics, and whether
   the case lies in the domain of the proved theorem relating the two.
 -/
 open Adb Adb.Net Drv
+
+/-- one operation on the `RegexManager` model: `q;addr;rule;text` | `t;time` | `p;interval;unused` | `d;addr` -/
+def rmOp (acc : Cache.RM × List (Nat × Rule) × List String × List String × Bool) (f : String) :
+    Option (Cache.RM × List (Nat × Rule) × List String × List String × Bool) :=
+  let (m, seen, outs, specs, noReuse) := acc
+  match f.splitOn "!" with
+  | ["q", a, r, text] => do
+    let a ← a.toNat?
+    let r ← parseRule r
+    let text ← unhex text
+    let (m', b) := m.matches a r text
+    let reuse := seen.any (fun p => p.1 == a && p.2 != r)
+    pure (m', (a, r) :: seen, outs ++ [showBool b], specs ++ [showBool (Cache.fresh r text)], noReuse && !reuse)
+  | ["t", t] => do pure (m.updateTime (← t.toNat?), seen, outs, specs, noReuse)
+  | ["p", i, u] => do pure (m.setPolicy (← i.toNat?) (← u.toNat?), seen, outs, specs, noReuse)
+  | ["d", a] => do pure (m.discard (← a.toNat?), seen, outs, specs, noReuse)
+  | _ => none
+
+def ans0 := 0
 
 def ans (m s : String) (d : Bool) : String := s!"M={m} S={s} D={if d then 1 else 0}"
 
@@ -65,14 +86,65 @@ def step (line : String) : String :=
       let d := Spec.caseOK rules q && isAsciiStr q.url
       ans (showSet (b.csp? q)) (showSet (Spec.csp? rules (dedupS tags) q)) d
     | _, _, _ => "bad-op"
+  | "rmseq" :: ops =>
+    match ops.foldlM rmOp (({} : Cache.RM), [], [], [], true) with
+    | some (_, _, outs, specs, noReuse) =>
+      let m := "".intercalate outs
+      ans m (if noReuse then "".intercalate specs else m) noReuse
+    | none => "bad-op"
   | _ => "bad-op"
 
-partial def loop (h : IO.FS.Stream) (out : IO.FS.Stream) : IO Unit := do
+/-- stateful operations on one engine (C06, C07) -/
+def hstepLine (st : HState) (line : String) : Option (HState × String) :=
+  match line.splitOn "\t" with
+  | "hnew" :: opt :: rules => do
+    let rules ← rules.mapM parseRule
+    pure (HState.init rules (opt == "1"), ans "ok" "ok" true)
+  | ["htags", kind, tags] => do
+    let tags ← unhexList tags
+    let op ← match kind with
+      | "use" => some (HOp.useTags tags)
+      | "enable" => some (HOp.enableTags tags)
+      | "disable" => some (HOp.disableTags tags)
+      | _ => none
+    let st' := hstep st op
+    pure (st', ans (showSet (some st'.b.tagsEnabled)) (showSet (some st'.b.tagsEnabled)) true)
+  | ["hopt"] => pure (hstep st .optimize, ans "ok" "ok" true)
+  | ["hreload"] => pure (hstep st .reload, ans "ok" "ok" true)
+  | ["hadd", r] => do
+    let r ← parseRule r
+    let n := st.rules.length
+    let st' := hstep st (.add r)
+    let ok := showBool (st'.rules.length != n)
+    pure (st', ans ok ok true)
+  | ["hexists", t] => do
+    let t ← unhex t
+    let o := showBool (st.tagExists t)
+    pure (st, ans o o true)
+  | ["hchk", store, q] => do
+    let attempts ← parseStore store
+    let q ← parseRequest q
+    let stt := Store.ofAttempts attempts
+    let d := Spec.caseOK st.rules q && isAsciiStr q.url
+    pure (st, ans (showVerdict (st.b.check stt q))
+      ("|".intercalate ((Spec.verdicts st.rules st.b.tagsEnabled stt q).map showVerdict)) d)
+  | ["hcsp", q] => do
+    let q ← parseRequest q
+    let d := Spec.caseOK st.rules q && isAsciiStr q.url
+    pure (st, ans (showSet (st.b.csp? q)) (showSet (Spec.csp? st.rules st.b.tagsEnabled q)) d)
+  | _ => none
+
+partial def loop (h : IO.FS.Stream) (out : IO.FS.Stream) (st : HState) : IO Unit := do
   let line ← h.getLine
   if line.isEmpty then return ()
   let l := if line.endsWith "\n" then (line.dropEnd 1).toString else line
-  out.putStrLn (step l)
-  loop h out
+  if l.startsWith "h" && !l.startsWith "hash" then
+    match hstepLine st l with
+    | some (st', o) => out.putStrLn o; loop h out st'
+    | none => out.putStrLn "bad-op"; loop h out st
+  else
+    out.putStrLn (step l)
+    loop h out st
 
 def main : IO Unit := do
-  loop (← IO.getStdin) (← IO.getStdout)
+  loop (← IO.getStdin) (← IO.getStdout) default
